@@ -87,6 +87,8 @@ pub enum Pre {
 pub enum ExResult {
     Normal,
     Abort(u8),
+    /// abort carrying a receipt number (BMP 87): Some(r) = that number, None = the one of the request (echo)
+    AbortWithReceipt(u8, Option<u64>),
     /// reservation: status information without a receipt number
     NoReceipt,
     /// no status information at all
@@ -168,6 +170,10 @@ pub enum FaultKind {
     Foreign,
     Silence,
     WrongSerial,
+    /// a well-formed Abort (06 1E 01 xx) where the exchange's reply set has none (registration reply)
+    AbortReply,
+    /// a bare completion 06 0F 00 where the exchange needs a completion with content (system-info reply)
+    EmptyCompletion,
 }
 
 #[derive(Clone, Debug, PartialEq)]
@@ -176,6 +182,8 @@ pub enum At {
     Tx(usize),
     /// every time this packet of this exchange kind is due (persistent): reply_idx 0 = the ack
     Point(Cmd, usize),
+    /// the first time this packet of this exchange kind is due in the call (one-shot)
+    PointOnce(Cmd, usize),
     /// the n-th connection attempt of the call
     Connect(usize),
     /// every connection attempt
@@ -206,6 +214,9 @@ pub struct Plan {
     pub split_delay_ms: Option<u64>,
     /// serial in the other letter case
     pub flip_serial_case: bool,
+    /// from the start of this call on the terminal holds a dangling pre-authorisation with this receipt number and
+    /// reports it on every pending query until a reversal of it completes
+    pub dangling_from_call: Option<(usize, u64)>,
 }
 
 // ---------------------------------------------------------------- shared state and log
@@ -288,6 +299,8 @@ pub struct Shared {
     pub connects_in_call: usize,
     pub tx_points: Vec<TxPoint>,
     pub last_status: Option<StatusFields>,
+    /// indices (into plan.faults) of one-shot point faults that have fired
+    pub fired: Vec<usize>,
     pub start: tokio::time::Instant,
     pub trace_counter: u64,
 }
@@ -312,6 +325,7 @@ impl Shared {
             connects_in_call: 0,
             tx_points: vec![],
             last_status: None,
+            fired: vec![],
             start: tokio::time::Instant::now(),
             trace_counter: 975,
         }
@@ -329,6 +343,11 @@ impl Shared {
         self.call += 1;
         self.tx_in_call = 0;
         self.connects_in_call = 0;
+        if let Some((c, d)) = self.plan.dangling_from_call {
+            if c == self.call {
+                self.dangling = Some(d);
+            }
+        }
     }
     fn take_explan(&mut self, cmd: Cmd) -> ExPlan {
         let call = self.call;
@@ -461,8 +480,43 @@ fn pre_packets(e: &Enc0, pre: &[Pre], status: &StatusFields) -> Vec<Vec<u8>> {
         .collect()
 }
 
-/// The terminal's answer to one command: packets after the ack, and how long it stays silent before the last one.
-fn respond(sh: &mut Shared, cmd: Cmd, val: &Val) -> (Vec<Vec<u8>>, u64) {
+/// What the exchange changes in the terminal's books — applied when its final packet has actually been sent.
+#[derive(Clone, Debug)]
+pub enum Effect {
+    None,
+    Reserve { receipt: u64, token: String, reserved: u128 },
+    Commit { receipt: u64, amount: u128, status: Option<StatusFields> },
+    Cancel { receipt: u64 },
+}
+
+pub fn apply_effect(sh: &mut Shared, e: Effect) {
+    match e {
+        Effect::None => {}
+        Effect::Reserve { receipt, token, reserved } => sh.ledger.push(PreAuth { receipt, token, reserved, released: None, state: PreAuthState::Open }),
+        Effect::Commit { receipt, amount, status } => {
+            if let Some(p) = sh.ledger.iter_mut().rev().find(|p| p.receipt == receipt && p.state == PreAuthState::Open) {
+                p.released = Some(amount);
+                p.state = PreAuthState::Committed;
+            }
+            if status.is_some() {
+                sh.last_status = status;
+            }
+        }
+        Effect::Cancel { receipt } => {
+            if let Some(p) = sh.ledger.iter_mut().rev().find(|p| p.receipt == receipt && p.state == PreAuthState::Open) {
+                p.state = PreAuthState::Cancelled;
+            }
+            if sh.dangling == Some(receipt) {
+                sh.dangling = None;
+            }
+        }
+    }
+}
+
+/// The terminal's answer to one command: packets after the ack, how long it stays silent before the last one,
+/// and the effect on its books once the last packet is out.
+fn respond(sh: &mut Shared, cmd: Cmd, val: &Val) -> (Vec<Vec<u8>>, u64, Effect) {
+    let mut effect = Effect::None;
     let schema = sh.schema.clone();
     let e = Enc0 { schema: &schema };
     let xp = sh.take_explan(cmd);
@@ -474,7 +528,7 @@ fn respond(sh: &mut Shared, cmd: Cmd, val: &Val) -> (Vec<Vec<u8>>, u64) {
     match cmd {
         Cmd::Registration => out.push(completion(&e)),
         Cmd::SystemInfo => match xp.result {
-            ExResult::Abort(c) => out.push(abort(&e, c)),
+            ExResult::Abort(c) | ExResult::AbortWithReceipt(c, _) => out.push(abort(&e, c)),
             _ => {
                 let serial = if sh.plan.flip_serial_case { flip_case(&sh.serial) } else { sh.serial.clone() };
                 let tid = xp.reported_terminal_id.clone().unwrap_or_else(|| sh.terminal_id.clone());
@@ -485,11 +539,11 @@ fn respond(sh: &mut Shared, cmd: Cmd, val: &Val) -> (Vec<Vec<u8>>, u64) {
             }
         },
         Cmd::SetTerminalId | Cmd::Initialization | Cmd::Other => match xp.result {
-            ExResult::Abort(c) => out.push(abort(&e, c)),
+            ExResult::Abort(c) | ExResult::AbortWithReceipt(c, _) => out.push(abort(&e, c)),
             _ => out.push(completion(&e)),
         },
         Cmd::Reservation => match xp.result {
-            ExResult::Abort(c) => out.push(abort(&e, c)),
+            ExResult::Abort(c) | ExResult::AbortWithReceipt(c, _) => out.push(abort(&e, c)),
             ExResult::NoStatus => out.push(completion(&e)),
             ExResult::NoReceipt => {
                 out.push(status_packet(&e, &status, None, None));
@@ -501,25 +555,27 @@ fn respond(sh: &mut Shared, cmd: Cmd, val: &Val) -> (Vec<Vec<u8>>, u64) {
                 sh.trace_counter += 1;
                 let token = val.path("tlv.bmp_data.bmp_data").and_then(|t| t.text()).unwrap_or("").to_string();
                 let reserved = val.field("amount").and_then(|a| a.num()).unwrap_or(0);
-                sh.ledger.push(PreAuth { receipt, token, reserved, released: None, state: PreAuthState::Open });
+                effect = Effect::Reserve { receipt, token, reserved };
                 out.push(status_packet(&e, &status, Some(receipt), None));
                 out.push(completion(&e));
             }
         },
         Cmd::PartialReversal => match xp.result {
             ExResult::Abort(c) => out.push(e.packet("packets::PartialReversalAbort", &[("error", Val::Num(c as u128))])),
+            ExResult::AbortWithReceipt(c, r) => {
+                let echo = val.field("receipt_no").and_then(|x| x.num()).unwrap_or(0xffff);
+                out.push(e.packet("packets::PartialReversalAbort", &[("error", Val::Num(c as u128)), ("receipt_no", Val::Num(r.map(|x| x as u128).unwrap_or(echo)))]))
+            }
             ref other => {
                 let receipt = val.field("receipt_no").and_then(|r| r.num()).unwrap_or(0) as u64;
                 let amount = val.field("amount").and_then(|a| a.num()).unwrap_or(0);
-                if let Some(p) = sh.ledger.iter_mut().rev().find(|p| p.receipt == receipt && p.state == PreAuthState::Open) {
-                    p.released = Some(amount);
-                    p.state = PreAuthState::Committed;
-                }
                 sh.trace_counter += 1;
+                let mut reported = None;
                 if *other != ExResult::NoStatus {
-                    sh.last_status = Some(status.clone());
+                    reported = Some(status.clone());
                     out.push(status_packet(&e, &status, Some(receipt), None));
                 }
+                effect = Effect::Commit { receipt, amount, status: reported };
                 out.push(completion(&e));
             }
         },
@@ -535,30 +591,30 @@ fn respond(sh: &mut Shared, cmd: Cmd, val: &Val) -> (Vec<Vec<u8>>, u64) {
         }
         Cmd::PreAuthReversal => match xp.result {
             ExResult::Abort(c) => out.push(e.packet("packets::PartialReversalAbort", &[("error", Val::Num(c as u128))])),
+            ExResult::AbortWithReceipt(c, r) => {
+                let echo = val.field("receipt_no").and_then(|x| x.num()).unwrap_or(0xffff);
+                out.push(e.packet("packets::PartialReversalAbort", &[("error", Val::Num(c as u128)), ("receipt_no", Val::Num(r.map(|x| x as u128).unwrap_or(echo)))]))
+            }
             _ => {
                 let receipt = val.field("receipt_no").and_then(|r| r.num()).unwrap_or(0) as u64;
-                if let Some(p) = sh.ledger.iter_mut().rev().find(|p| p.receipt == receipt && p.state == PreAuthState::Open) {
-                    p.state = PreAuthState::Cancelled;
-                }
-                if sh.dangling == Some(receipt) {
-                    sh.dangling = None;
-                }
+                effect = Effect::Cancel { receipt };
                 out.push(completion(&e));
             }
         },
         Cmd::EndOfDay => match xp.result {
             ExResult::Abort(c) => out.push(e.packet("packets::PartialReversalAbort", &[("error", Val::Num(c as u128))])),
+            ExResult::AbortWithReceipt(c, r) => out.push(e.packet("packets::PartialReversalAbort", &[("error", Val::Num(c as u128)), ("receipt_no", Val::Num(r.map(|x| x as u128).unwrap_or(0xffff)))])),
             _ => out.push(completion(&e)),
         },
         Cmd::ReadCard => match xp.result {
-            ExResult::Abort(c) => out.push(abort(&e, c)),
+            ExResult::Abort(c) | ExResult::AbortWithReceipt(c, _) => out.push(abort(&e, c)),
             _ => {
                 let card = xp.card.clone().unwrap_or(CardData { uid: Some("000000000000081ca72f".into()), ..CardData::default() });
                 out.push(status_packet(&e, &StatusFields::default(), None, Some(&card)));
             }
         },
     }
-    (out, xp.silent_ms)
+    (out, xp.silent_ms, effect)
 }
 
 pub fn flip_case(s: &str) -> String {
@@ -609,13 +665,14 @@ fn next_tx_action(sh: &mut Shared, cmd: Cmd, reply_idx: usize, conn: usize) -> T
     sh.tx_in_call += 1;
     let call = sh.call;
     sh.tx_points.push(TxPoint { call, tx_index: idx, cmd, reply_idx, conn });
-    for f in &sh.plan.faults {
+    for (fi, f) in sh.plan.faults.iter().enumerate() {
         if f.call != call {
             continue;
         }
         let hit = match &f.at {
             At::Tx(i) => *i == idx,
             At::Point(c, r) => *c == cmd && *r == reply_idx,
+            At::PointOnce(c, r) => *c == cmd && *r == reply_idx && !sh.fired.contains(&fi),
             _ => false,
         };
         if hit {
@@ -623,7 +680,18 @@ fn next_tx_action(sh: &mut Shared, cmd: Cmd, reply_idx: usize, conn: usize) -> T
             if f.kind == FaultKind::WrongSerial && (cmd != Cmd::SystemInfo || reply_idx != 1 || sh.log.iter().any(|e| e.conn == conn && e.dir == Dir::Vetted)) {
                 continue;
             }
-            return TxAction::Fault(f.kind);
+            // replies that are only *unexpected* where the reply set does not contain them
+            if f.kind == FaultKind::AbortReply && (cmd != Cmd::Registration || reply_idx != 1) {
+                continue;
+            }
+            if f.kind == FaultKind::EmptyCompletion && (cmd != Cmd::SystemInfo || reply_idx != 1 || sh.log.iter().any(|e| e.conn == conn && e.dir == Dir::Vetted)) {
+                continue;
+            }
+            let kind = f.kind;
+            if matches!(f.at, At::PointOnce(..)) {
+                sh.fired.push(fi);
+            }
+            return TxAction::Fault(kind);
         }
     }
     TxAction::Send
@@ -655,7 +723,7 @@ async fn serve(shared: SharedRef, mut io: DuplexStream, conn: usize) {
             shared.lock().unwrap().ev(conn, Dir::Eof, &[]);
             return;
         };
-        let (script, silent_ms, cmd) = {
+        let (script, silent_ms, cmd, effect) = {
             let mut sh = shared.lock().unwrap();
             let li = sh.ev(conn, Dir::Rx, &pkt);
             if pkt == ACK {
@@ -670,17 +738,17 @@ async fn serve(shared: SharedRef, mut io: DuplexStream, conn: usize) {
                     let t = sh.now_ms();
                     let call = sh.call;
                     sh.requests.push(Request { t_ms: t, call, conn, cmd: Cmd::Other, key: "?".into(), val: Val::Struct(vec![]), bytes: pkt.clone(), log_index: li });
-                    (vec![vec![0x84, 0x9a, 0x00]], 0, Cmd::Other)
+                    (vec![vec![0x84, 0x9a, 0x00]], 0, Cmd::Other, Effect::None)
                 }
                 Some((key, val)) => {
                     let cmd = classify(key, &val);
                     let t = sh.now_ms();
                     let call = sh.call;
                     sh.requests.push(Request { t_ms: t, call, conn, cmd, key: key.to_string(), val: val.clone(), bytes: pkt.clone(), log_index: li });
-                    let (replies, silent) = respond(&mut sh, cmd, &val);
+                    let (replies, silent, effect) = respond(&mut sh, cmd, &val);
                     let mut script = vec![ACK.to_vec()];
                     script.extend(replies);
-                    (script, silent, cmd)
+                    (script, silent, cmd, effect)
                 }
             }
         };
@@ -696,6 +764,10 @@ async fn serve(shared: SharedRef, mut io: DuplexStream, conn: usize) {
                     if !send(&shared, &mut io, conn, &bytes).await {
                         shared.lock().unwrap().ev(conn, Dir::Eof, &[]);
                         return;
+                    }
+                    if i + 1 == n {
+                        // the terminal has acted once its final packet is out
+                        apply_effect(&mut shared.lock().unwrap(), effect.clone());
                     }
                     if cmd == Cmd::SystemInfo && i == 1 && bytes.len() > 10 && bytes[0] == 0x06 && bytes[1] == 0x0f {
                         shared.lock().unwrap().ev(conn, Dir::Vetted, &[]);
@@ -733,6 +805,12 @@ async fn serve(shared: SharedRef, mut io: DuplexStream, conn: usize) {
                             };
                             let _ = io.write_all(&pkt).await;
                             shared.lock().unwrap().ev(conn, Dir::Tx, &pkt);
+                        }
+                        FaultKind::AbortReply => {
+                            let _ = io.write_all(&[0x06, 0x1e, 0x01, 0x6f]).await;
+                        }
+                        FaultKind::EmptyCompletion => {
+                            let _ = io.write_all(&[0x06, 0x0f, 0x00]).await;
                         }
                         FaultKind::Silence | FaultKind::Refuse | FaultKind::ConnectStall => {}
                     }
